@@ -12,6 +12,9 @@ Tie (every run, real code from the working tree under ASan+UBSan):
     with small windows and the real 128 KiB file stream) / fstree_from_file_stream+handle_line (fstree_add_generic
     replaced by a recorder), print_escaped, describe_tree on nodes and trees built in the harness, glibc
     major/minor/makedev, against `sqfsmodel c16`, byte for byte;
+  fstree level — harness/h_c16_fs.c: the real fstree_from_file.c on top of the real lib/fstree; the in-memory tree
+    dumped node by node against `Sqfs.QuoteFs.buildFromFile`, and — on the real describe output of generated trees —
+    against the specification `normTree` (theorem rebuild_fstree_partial);
   tool level — gensquashfs → image A → rdsquashfs -d [-p R] + rdsquashfs -u / -p R → gensquashfs -F → image B;
     A and B compared entry by entry through rdsquashfs -s / -c / -l (stat.c, not describe.c).
 
@@ -1224,7 +1227,9 @@ def run(ctx):
                 "lines across and longer than its 128 KiB buffer.  non-trivial = distinct describe lines produced by the real printer and "
                 "decoded by the real parser.  tool level: generated trees (quoting-relevant names, 255-byte names, > 128 KiB lines, generated "
                 "--unpack-root values with ./, .., //, trailing slash, absolute) through gensquashfs/rdsquashfs (ASan+UBSan) and back, "
-                "compared by rdsquashfs -s/-c/-l; images with LF in a link target built from a host directory."
+                "compared by rdsquashfs -s/-c/-l; images with LF in a link target built from a host directory.  fstree level: pack files over a small "
+                "name set (implicit directories, redefinition, duplicates, files as directories, device numbers out of range) and the real describe "
+                "output of generated trees (links with arbitrary modes) through the real lib/fstree."
                 % (3 if ctx.quick() else 5, nexh, nrand),
         "exhaustive": False,
         "witness_theorems_build": wok,
@@ -1237,7 +1242,9 @@ def run(ctx):
         "(handle_line and callbacks up to the arguments of fstree_add_generic; glob lines excluded), bin/rdsquashfs/src/describe.c (what it prints "
         "before a failure is not modelled, only the class of the failure), lib/common/src/dir_tree.c:sqfs_tree_node_get_path; glibc "
         "major/minor/makedev, printf %o/%u, isspace/isdigit in the C locale",
-        "what happens after fstree_add_generic (tree → image) and before describe_tree (image → tree), `rdsquashfs -u` and the contents of files are "
+        "lib/fstree/src/fstree.c is modelled (Sqfs.QuoteFs) as fstree_from_file.c drives it: ent->flags = 0 (no hard links), names as canonicalize_name "
+        "leaves them; inode numbers, xattr indices and fstree_post_process are not modelled",
+        "what happens after the in-memory tree (tree → image) and before describe_tree (image → tree), `rdsquashfs -u` and the contents of files are "
         "not modelled (C01/C06); here they are exercised at tool level only",
     ], assumptions=["entry names contain no LF (the property's quantifier) and no NUL/'/' (cannot occur in an image)",
                     "the theorems about the printer in /repo also assume no LF in symlink targets and --unpack-root; where that fails the "
